@@ -11,7 +11,7 @@ EXTRA = ["README.md", "README.rst", "setup.py"]
 # unrelated prior content: several variants per file - tables of other tools ([tool.black], bump2version's [bumpversion] with a current_version of its own),
 # a key called current_version elsewhere; none of them is a bumpver section
 UNRELATED = {"setup.cfg": ["[metadata]\nname = demo\n\n[options]\nzip_safe = False\n", "[bumpversion]\ncurrent_version = 1.4.2\ncommit = True\n\n[bumpversion:file:setup.py]\n",
-                           "[tool:pytest]\naddopts = -q\n"],
+                           "[tool:pytest]\naddopts = -q\n", "[metadata]\nname: demo\nversion: attr: demo.__version__\n\n[flake8]\nmax-line-length: 100\n"],      # the other INI spelling, name: value
              "pyproject.toml": ["[build-system]\nrequires = [\"setuptools\"]\n\n[tool.black]\nline-length = 100\n", "[tool.bumpversion]\ncurrent_version = \"1.4.2\"\n", "[project]\nname = \"demo\"\nversion = \"0.1\"\n"],
              "bumpver.toml": ["[other]\nkey = 1\n", "[tool.black]\nline-length = 100\n", "[other]\ncurrent_version = \"1\"\n"],
              ".bumpver.toml": ["# nothing yet\n[misc]\nx = \"y\"\n", "[tool.isort]\nprofile = \"black\"\n\n[tool.black]\nline-length = 100\n"],
@@ -23,10 +23,10 @@ SECTION = {"setup.cfg": "[metadata]\nname = demo\n\n[bumpver]\ncurrent_version =
            "pycalver.toml": "[pycalver]\ncurrent_version = \"v202010.1001\"\nversion_pattern = \"{pycalver}\"\n"}
 
 
-def content(rng, f, cls):
+def content(rng, f, cls, variant=None):
     if cls == "empty":
         return b""
-    text = rng.choice(UNRELATED[f]) if cls == "unrelated" else SECTION[f]
+    text = (rng.choice(UNRELATED[f]) if variant is None else UNRELATED[f][variant % len(UNRELATED[f])]) if cls == "unrelated" else SECTION[f]
     style = rng.choice(["lf", "lf", "crlf", "nonl", "crlf-nonl", "comment"])
     if "nonl" in style:
         text = text.rstrip("\n")
@@ -38,14 +38,15 @@ def content(rng, f, cls):
 
 
 def case(job):
-    lay, extras, seed = job
+    lay, extras, seed = job[:3]
+    variant = job[3] if len(job) > 3 else None
     rng = random.Random(seed)
     year = None
     with drive.scratch_dir("c19") as d:
         proj = project.Project(os.path.join(d, "p"), vcs=None)
         for f, cls in lay.items():
             if cls != "absent":
-                proj.write(f, content(rng, f, cls))
+                proj.write(f, content(rng, f, cls, variant))
         for f in extras:
             proj.write(f, {"README.md": "# demo\n", "README.rst": "demo\n====\n", "setup.py": "from setuptools import setup\nsetup(name='demo', version='0')\n"}[f])
         snaps = [proj.snapshot()]
@@ -106,6 +107,11 @@ def run(ctx):
             for ex in all_extras:
                 for rep in range(2):
                     jobs.append((lay, ex, len(jobs) + ctx.seed * 100000))
+    # every variant of unrelated prior content, for every candidate file alone and next to an empty higher-ranked one
+    for f in CANDS:
+        for v in range(max(len(x) for x in UNRELATED.values())):
+            jobs.append((dict({c: "absent" for c in CANDS}, **{f: "unrelated"}), [], len(jobs) + ctx.seed * 100000, v))
+            jobs.append((dict({c: "absent" for c in CANDS}, **{f: "unrelated", "setup.cfg": "unrelated"}), ["README.md"], len(jobs) + ctx.seed * 100000, v))
     events = drive.pmap(case, jobs, hooks=False, chunksize=20)
     events = [e for e in events if e["year_stable"]]
     for i, e in enumerate(events):
